@@ -57,7 +57,7 @@ func mustError(o h.Outcome) string {
 
 func c17(c *Ctx) {
 	maxLen := c.N(6, 12)
-	c.Rule = fmt.Sprintf("exhaustive: arrays of length 0..%d x element kinds {numbers, ints, strings, bools, objects, arrays} x carriers {[]any, typed slice, Go array} x {Count, Any, First, Last, AsArray, Index(i) for i in -2..len+2, 0.0, 1.5, Count-1 via path, and positions far out of range (1e30, 1e64, 2^64, 2^64+1, 2^65 … as literals, numeral strings and decimals in the data)}; Select with key / function / filter sub-queries; AnyOf with literal, path and array arguments; Sum over a stepped key vs Select vs direct values (rows spelling their keys in varying letter case). Oracles computed in the harness. Non-trivial = array non-empty; distinct by (query, data).", maxLen)
+	c.Rule = fmt.Sprintf("exhaustive: arrays of length 0..%d x element kinds {numbers, ints, strings, bools, objects, arrays} x carriers {[]any, typed slice, Go array} x {Count, Any, First, Last, AsArray, Index(i) for i in -2..len+2, 0.0, 1.5, Count-1 via path, and positions far out of range (1e30, 1e64, 2^64, 2^64+1, 2^65 … as literals, numeral strings and decimals in the data)}; Select with key / function / filter sub-queries; AnyOf with literal, path and array arguments; Sum over a stepped key vs Select vs direct values (rows spelling their keys in varying letter case). Select with one-key sub-queries over rows holding numeral strings, strings, numbers and booleans (maps, map[string]string, structs); Select flattening []any, typed slices and Go arrays alike. Oracles computed in the harness. Non-trivial = array non-empty; distinct by (query, data).", maxLen)
 	kinds := elemKinds()
 	for kind, mk := range kinds {
 		for n := 0; n <= maxLen; n++ {
